@@ -13,40 +13,57 @@ _T = "SE.Proofs.C14."
 THEOREMS = [_T + n for n in [
     "C14_lattice", "C14_inside", "C14_complete_iff", "C14_incomplete_iff", "C14_duration", "C14_cover",
     "C14_ids_distinct", "C14_rejects_nonpositive", "C14_default_hop", "C14_bound_irrelevant",
-    "C14_holds_iff", "C14_pinned_bound_loses_windows"]]
+    "C14_holds_iff", "C14_pinned_bound_loses_windows",
+    # review R-C14
+    "C14_count", "C14_bound_ge", "C14_name_injective", "C14_full", "C14_complete_tail"]]
 LEVEL_TEXT = ("Lean theorems over a loop-level model of segment_clip (after fix C14-1: loop bound ceil(duration/hop)), for all "
               "rational clip bounds, durations, hops and both flags: the i-th segment is the lattice window start + i*hop "
               "truncated at the clip end; the result contains exactly the windows that fit (resp. start inside the clip); "
-              "complete windows last exactly `duration`; coverage when hop <= duration; strictly increasing starts hence "
-              "distinct identifier keys; rejection iff a parameter is non-positive; the executable statement `holds` is "
-              "satisfied by exactly the model's result.  The pinned bound floor(duration/hop) is refuted on concrete "
-              "witnesses.  The model is tied to the code by exact differential runs on an exhaustive dyadic grid.")
-LEVEL_NOTE = ("Trusted: Lean kernel, the Python harness, uuid.uuid5 (SHA-1 collision freedom: identifiers are modelled by the "
-              "key (parent, start, end) they are computed from).  Unmodelled: binary64 rounding of duration/hop, "
-              "start + i*hop and start + duration for non-dyadic values - probed in free mode (decimal hops) against the "
-              "exact model with a one-sliver allowance at the clip end.  Model tied to the code by generator-bounded "
-              "correspondence only (the loop bound makes the function untraceable symbolically).")
-TECHNIQUE = ("Lean 4 proof over a loop-level model (induction on the loop bound); exhaustive dyadic-grid correspondence with "
-             "exact comparison; recomputed uuid5 keys; float monitor in free mode")
+              "the whole result in closed form (the windows 0 .. count-1, count = ceil((e-s)/hop) resp. "
+              "floor((e-s-duration)/hop)+1); complete windows last exactly `duration`; coverage when hop <= duration (with "
+              "include_incomplete the whole clip, without it all but a tail shorter than one hop); strictly increasing "
+              "starts; the name the uuid is computed from, 'segment_clip:<parent>:<start>:<end>', is injective in (parent, "
+              "start, end) for an injective colon-free number formatting, hence pairwise distinct within a call; every "
+              "segment carries the parent's recording; rejection iff a parameter is non-positive; any loop bound >= "
+              "ceil(duration/hop) gives the same result; the executable statement `holds` is satisfied by exactly the "
+              "model's result.  The pinned bound floor(duration/hop) is refuted on concrete witnesses.  The model is tied "
+              "to the code for all inputs by symbolic traces of the real function (guards, default hop, both breaks, "
+              "clamp, lattice formula, name, recording, the quantity rounded for the loop bound) with the loop bound "
+              "answered by an oracle n = 0..3, and by exact differential runs on exhaustive dyadic grids.")
+LEVEL_NOTE = ("Trusted: Lean kernel, the Python harness and symbolic tracer, the semantics of `for i in range(n)` (the body "
+              "traced for n = 0..3 is the body run for every n) and of math.ceil, uuid.uuid5 (SHA-1 collision freedom), "
+              "Python's float formatting as the model's `fmt` (round-trip injectivity and absence of ':' are monitored on "
+              "every observed bound).  Unmodelled: binary64 rounding of duration/hop, start + i*hop and start + duration "
+              "for non-dyadic values - probed in free mode (decimal hops) against the exact model with a one-sliver "
+              "allowance at the clip end; NaN / inf.")
+TECHNIQUE = ("Lean 4 proof over a loop-level model (induction on the loop bound); symbolic-trace equality obligations "
+             "regenerated from the source with an oracle loop bound; exhaustive dyadic-grid correspondence with exact "
+             "comparison; recomputed uuid5 names; float monitor in free mode")
 RULE = ("exhaustive dyadic grid of clip start/end x duration x hop (hop <, =, > duration; clip length exact and non-exact "
-        "multiples of the hop) x both flags, plus random dyadic and decimal cases; non-trivial = the implementation "
+        "multiples of the hop) x both flags, plus random dyadic cases (floats, ints, numpy float64), clip ends 2^-10..2^-40 "
+        "off a lattice point or window end, hops of 2^-22, and decimal cases; non-trivial = the implementation "
         "yielded at least one segment; distinct = distinct (operation, input)")
-TRUSTED = ["uuid.uuid5 / SHA-1: distinct keys give distinct identifiers",
+TRUSTED = ["uuid.uuid5 / SHA-1: distinct names give distinct identifiers",
+           "Python float formatting inside an f-string is repr (the model's parameter `fmt`); monitored: round-trips, no ':'",
+           "for-loop semantics: the loop body traced symbolically for range(0..3) is the body executed for every range(n)",
            "pydantic Clip construction stores start_time/end_time/recording/uuid unchanged"]
 ASSUMPTIONS = ["binary64 arithmetic is exact on the dyadic grids used: e - s, i*hop, s + i*hop, start + duration are sums and "
-               "products of small dyadics; duration/hop is correctly rounded and, for numerators below 2^26, cannot round "
-               "across an integer, so floor/ceil of the float quotient equal floor/ceil of the exact one"]
+               "products of dyadics below 2^10 at resolution >= 2^-40; duration/hop is correctly rounded and cannot round "
+               "across an integer (grid: numerators below 2^26; fine cases: quotient < 64 and at least 2^-43 from an "
+               "integer unless equal to one), so ceil of the float quotient equals ceil of the exact one"]
 NOT_COMPARED = ["error messages (only the error class)",
                 "free mode: values within 2^-40 relative; one trailing window whose start (or, without include_incomplete, "
                 "whose end) is within 2^-40 of the clip end may be present on one side only (float sliver)",
                 "the numeric value of a segment uuid is compared with uuid5(namespace, 'segment_clip:<parent>:<start>:<end>') "
-                "as a tie of the identifier key; a different formula alone is not reported as a violation unless ids stop "
-                "being a deterministic injective function of (parent, start, end)"]
+                "as a tie of the identifier name (symbolically for all inputs and on every observed segment); a different "
+                "formula alone is not reported as a violation unless ids stop being a deterministic injective function of "
+                "(parent, start, end)"]
 
 PARENTS = ["7d2e9a4c-1111-4a6b-9c3d-000000000001", "7d2e9a4c-1111-4a6b-9c3d-000000000002"]
 _REC = None
 _CACHE = {}          # jkey(inp) -> canonical impl output (for the batched `holds` pass)
 _UUID_FAILS = []
+_FMT_FAILS = []
 
 
 def _recording():
@@ -57,30 +74,57 @@ def _recording():
     return _REC
 
 
-def _f(s):
-    return None if s is None else float(frac(s))
+def _f(s, num="float"):
+    """the argument as the caller would pass it: a float, an int where the value is integral ("int"), a numpy
+    float64 ("np") - the property quantifies over values, not over the Python type that carries them"""
+    if s is None:
+        return None
+    q = frac(s)
+    if num == "int" and q.denominator == 1:
+        return int(q)
+    if num == "np":
+        import numpy as np
+        return np.float64(float(q))
+    return float(q)
 
 
 def _call(inp, parent=PARENTS[0]):
     from soundevent import data
     from soundevent.operations import segment_clip
-    clip = data.Clip(uuid=_uuid.UUID(parent), recording=_recording(), start_time=_f(inp["start"]),
-                     end_time=_f(inp["end"]))
+    num = inp.get("num", "float")
+    clip = data.Clip(uuid=_uuid.UUID(parent), recording=_recording(), start_time=_f(inp["start"], num),
+                     end_time=_f(inp["end"], num))
     kw = {}
     if inp.get("hop") is not None:
-        kw["hop"] = _f(inp["hop"])
-    return clip, list(segment_clip(clip, duration=_f(inp["duration"]), include_incomplete=inp["incl"], **kw))
+        kw["hop"] = _f(inp["hop"], num)
+    return clip, list(segment_clip(clip, duration=_f(inp["duration"], num), include_incomplete=inp["incl"], **kw))
 
 
-def _impl_segment(inp):
+def _namespace():
     import soundevent.constants as constants
     uuid_namespace = getattr(constants, "uuid_namespace", None)     # tolerant: a renamed constant breaks the tie only
     if not isinstance(uuid_namespace, _uuid.UUID):
         cands = [v for v in vars(constants).values() if isinstance(v, _uuid.UUID)]
         uuid_namespace = cands[0] if len(cands) == 1 else None       # the package's only UUID constant, whatever its name
+    return uuid_namespace
+
+
+def _fmt_ok(x):
+    """the hypotheses of C14_name_injective about the number formatting (`fmt` of the model), on one value:
+    repr round-trips (so it is injective) and contains no ':'"""
+    r = repr(x)
+    return ":" not in r and isinstance(x, float) and float(r) == x and (x != 0 or math.copysign(1, float(r)) == math.copysign(1, x))
+
+
+def _impl_segment(inp):
+    uuid_namespace = _namespace()
     clip, segs = _call(inp)
     _clip2, segs2 = _call(inp)          # determinism = two calls
     side = {}
+    num = inp.get("num", "float")
+    if (clip.start_time, clip.end_time, str(clip.uuid)) != (_f(inp["start"], num), _f(inp["end"], num), PARENTS[0]) \
+            or clip.recording is not _recording():
+        side["parent_mutated"] = True
     a = [(str(x.uuid), x.start_time, x.end_time) for x in segs]
     b = [(str(x.uuid), x.start_time, x.end_time) for x in segs2]
     if a != b:
@@ -89,6 +133,8 @@ def _impl_segment(inp):
         side["duplicate_ids"] = True
     if any(x.recording is not clip.recording and x.recording != clip.recording for x in segs):
         side["other_recording"] = True
+    if ":" in str(clip.uuid) or not all(_fmt_ok(t) for x in segs for t in (x.start_time, x.end_time)):
+        side["fmt_contract"] = True
     for x in segs:
         if not isinstance(uuid_namespace, _uuid.UUID):
             side["uuid_formula"] = True
@@ -115,6 +161,14 @@ def _impl_wrapper(inp):
 def _holds_side(ctx, inp, io):
     """identifier / recording side conditions observed on the real objects"""
     side = io.pop("_side", None) if isinstance(io, dict) else None
+    if isinstance(io, dict) and io.get("val"):
+        bad = bool((side or {}).get("fmt_contract"))
+        if not bad:
+            ctx.tally("contract:float-format-injective-no-colon")
+        elif len(_FMT_FAILS) < 3:
+            _FMT_FAILS.append(inp)
+            ctx.contract("float-format-injective-no-colon", False, inp, io,
+                         "a segment bound is not a float whose repr round-trips without ':' (hypothesis of C14_name_injective)")
     if not side:
         return None
     if side.get("nondeterministic"):
@@ -123,6 +177,8 @@ def _holds_side(ctx, inp, io):
         return "two segments of one call share an identifier"
     if side.get("other_recording"):
         return "a segment belongs to another recording than its parent clip"
+    if side.get("parent_mutated"):
+        return "segment_clip changed its argument: the parent clip's bounds / uuid / recording differ after the call"
     if side.get("uuid_formula") and len(_UUID_FAILS) < 3:
         _UUID_FAILS.append(inp)
         ctx.fail("correspondence", "uuid_formula", inp=inp, impl=io,
@@ -264,6 +320,53 @@ def _random_dyadic(rng, n):
         yield _case(s, e, dur, None if (dur == hop and rng.random() < 0.5) else hop, rng.random() < 0.5)
 
 
+def _typed_grid_cases():
+    """integral values passed as Python ints and as numpy float64 (a fast path for one number type)"""
+    pts = list(range(0, 7))
+    qs = list(range(1, 6))
+    for num in ("int", "np"):
+        for s, e in itertools.combinations_with_replacement(pts, 2):
+            for dur in qs:
+                for hop in [None] + qs:
+                    for incl in (False, True):
+                        yield {**_case(s, e, dur, hop, incl), "num": num}
+
+
+def _fine_cases(rng, n):
+    """clip ends (and starts) a tiny dyadic step 2^-k, k = 10..40, off a lattice point or off the end of a
+    window: the comparisons of the loop decided by a difference far below the grid step.  All values stay
+    exact in binary64 (magnitudes < 2^10 at resolution 2^-40) and (e - s) / hop < 64 is at least 2^-43 away
+    from an integer unless it is one, so the float quotient cannot round across an integer."""
+    for _ in range(n):
+        q = 4
+        hop = Fraction(rng.randint(1, 8 * q), q)
+        r = rng.random()
+        dur = hop if r < 0.3 else (Fraction(rng.randint(1, 8 * q), q))
+        s = Fraction(rng.randint(0, 64 * q), q) if rng.random() < 0.7 else Fraction(0)
+        m = rng.randint(0, 20)
+        eps = Fraction(rng.choice([-1, 1]), 1 << rng.choice([10, 20, 30, 36, 40]))
+        e = s + m * hop + (dur if rng.random() < 0.5 else 0) + eps
+        r = rng.random()
+        if r < 0.25:
+            s, e = s + eps, e + eps                    # the whole clip off the grid, its length on it
+        elif r < 0.4:
+            s = s - eps if s - eps >= 0 else s + abs(eps)
+        if e < s:
+            e = s
+        yield _case(s, e, dur, None if (dur == hop and rng.random() < 0.5) else hop, rng.random() < 0.5)
+
+
+def _tiny_hop_cases():
+    """hops of 2^-22 s: starts that differ by less than a microsecond must still give distinct segments and ids"""
+    h = Fraction(1, 1 << 22)
+    for s in (Fraction(0), Fraction(1), Fraction(37, 8)):
+        for j in range(0, 13):
+            for dur in (h, 2 * h, 3 * h):
+                for hop in (None, h, 2 * h):
+                    for incl in (False, True):
+                        yield _case(s, s + j * h, dur, hop, incl)
+
+
 def _free_cases(rng, n):
     """decimal (non-dyadic) hops; the floats are what a user would type"""
     for _ in range(n):
@@ -288,6 +391,25 @@ def _free_cases(rng, n):
         if e < s:
             e = s
         yield _case(s, e, dur, None if (dn == hn and rng.random() < 0.5) else hop, rng.random() < 0.6)
+
+
+def _id_directed_cases(rng, n):
+    """identifier collisions a sloppy name could produce: decimal bounds whose digits concatenate ambiguously
+    ('1.5' + '12.5' = '1.51' + '2.5'), the same bounds under two parents, the same start with another end, the
+    same end with another start"""
+    big = Fraction(1000)
+    for _ in range(n):
+        a, d, x = rng.randint(1, 8), rng.randint(1, 9), rng.randint(1, 9)
+        y = rng.randint(a + 1, 9)
+        A, B = Fraction(f"{a}.{d}"), Fraction(f"{x}{y}.5")
+        A2, B2 = Fraction(f"{a}.{d}{x}"), Fraction(f"{y}.5")
+        one = lambda s, e, parent: {**_case(s, e, big, None, True), "parent": parent}    # noqa: E731
+        yield {"calls": [one(A, B, PARENTS[0]), one(A2, B2, PARENTS[0])]}
+        yield {"calls": [one(A, B, PARENTS[0]), one(A, B, PARENTS[1]), one(A, B, PARENTS[0])]}
+        yield {"calls": [one(A, B, PARENTS[0]), one(A, B2 + 20, PARENTS[0]), one(A2, B, PARENTS[0])]}
+        # '<start>:<end>' read as one string must still split uniquely: (1.5, 2.5) / (1.52, 5) style
+        yield {"calls": [one(Fraction(f"{a}.{d}"), Fraction(f"{y}.{x}"), PARENTS[0]),
+                         one(Fraction(f"{a}.{d}{y}"), Fraction(f"{y}{x}"), PARENTS[0])]}
 
 
 def _id_cases(rng, n):
@@ -369,12 +491,24 @@ def _stage_grid(ctx):
                                       "j=1..20; both flags")
 
 
+def _with_types(rng, cases):
+    for c in cases:
+        r = rng.random()
+        yield {**c, "num": "int"} if r < 0.15 else ({**c, "num": "np"} if r < 0.25 else c)
+
+
 def _stage_random(ctx):
-    _run_exact(ctx, _random_dyadic(ctx.rng, ctx.budget(3000, 40000)))
+    _run_exact(ctx, _with_types(ctx.rng, _random_dyadic(ctx.rng, ctx.budget(3000, 40000))))
+    _run_exact(ctx, _typed_grid_cases())
+    ctx.exhaustive["segment typed grid"] = ("integral clip start <= end in 0..6, duration 1..5, hop None or 1..5, both flags, "
+                                            "passed as Python ints and as numpy float64")
+    _run_exact(ctx, _fine_cases(ctx.rng, ctx.budget(3000, 30000)))
+    _run_exact(ctx, _tiny_hop_cases())
 
 
 def _stage_ids(ctx):
     ctx.run_cases(OPS["id_classes"], _id_cases(ctx.rng, ctx.budget(300, 3000)))
+    ctx.run_cases(OPS["id_classes"], _id_directed_cases(ctx.rng, ctx.budget(60, 600)))
 
 
 def _stage_free(ctx):
@@ -385,7 +519,16 @@ def _stage_free(ctx):
     _FREE_STATS.clear()
 
 
+def _symbolic_ties(ctx):
+    """Tie 1b: the real segment_clip on symbolic numbers, the loop bound answered by an oracle (harness/c14_sym.py)"""
+    from .. import c14_sym
+    import soundevent.operations as ops
+    c14_sym.register(ctx, ops, _namespace(), _recording(), [0, 1, 2, 3, 4] if ctx.thorough() else [0, 1, 2, 3])
+
+
 def run(ctx):
+    ctx.stage("symbolic-ties", _symbolic_ties, ctx)
+    ctx.stage("discharge", ctx.discharge, ["SoundeventModel.Segment", "SoundeventModel.Tactics"])
     ctx.stage("corpus", ctx.run_corpus, OPS)
     ctx.stage("exhaustive-grid", _stage_grid, ctx)
     ctx.stage("random-dyadic", _stage_random, ctx)
@@ -396,4 +539,8 @@ def run(ctx):
 def search(ctx, failures):
     """a tie broke (uuid formula, correspondence): look for an input on which the property itself fails"""
     ctx.run_cases(OPS["id_classes"], _id_cases(ctx.rng, 2000))
+    ctx.run_cases(OPS["id_classes"], _id_directed_cases(ctx.rng, 300))
+    _run_exact(ctx, _tiny_hop_cases())
+    _run_exact(ctx, _fine_cases(ctx.rng, 5000))
+    _run_exact(ctx, _typed_grid_cases())
     _run_exact(ctx, _grid_cases(12, 2))
